@@ -316,6 +316,14 @@ fn shapex_main(args: &Args) -> i32 {
                 problems.push(("key-count".into(), format!("{} distinct tuples but {} distinct keys stored", c1.evals, n)));
             }
         }
+        let c03 = args.get("property") == Some("C03");
+        if c03 {
+            // once per distinct argument tuple: not fewer (a tuple served another tuple's entry), not more (second pass)
+            problems.retain(|(m, _)| m == "shared-entry");
+            if e2 != 0 {
+                problems.push(("recomputed".into(), format!("{} argument tuples were all stored in a first pass; calling them again ran the body {} times", c1.evals, e2)));
+            }
+        }
         let c14 = args.get("property") == Some("C14");
         if c14 {
             problems.clear();
@@ -346,7 +354,7 @@ fn shapex_main(args: &Args) -> i32 {
             if c01 && mon != "wrong-tuple-served" {
                 continue;
             }
-            let pname: &'static str = if c14 { "C14" } else if c01 { "C01" } else { "C02" };
+            let pname: &'static str = if c14 { "C14" } else if c03 { "C03" } else if c01 { "C01" } else { "C02" };
             let v = Violation {
                 property: pname,
                 signature: format!("{}/{}/{}/{}", pname, if sh.is_async { "async" } else { "sync" }, if sh.is_method { "method" } else { "fn" }, mon),
